@@ -765,6 +765,8 @@ func TestVerifPipelineList(t *testing.T) {
 		for _, x := range c.Shape {
 			if x == "a" {
 				page = append(page, "ns-allowed")
+			} else if x == "c" {
+				page = append(page, "Ns-Allowed")
 			} else {
 				page = append(page, "ns-forbidden")
 			}
